@@ -366,6 +366,21 @@ class Analysis:
             if op in ("BitAnd", "BitOr", "BitXor") and a[0] == "B" and b[0] == "B":
                 return ("B", (op.lower(), a[1], b[1]))
             return ("V", "bin", op, a, b)
+        if op in ("Add", "Sub", "Mul") and getattr(self, "_bin_facts", None) is not None:
+            # plain (wrapping) machine arithmetic - what `+ - *` compile to when overflow checks are off (release profile): the mathematical result
+            # only where it provably fits the type; otherwise a new quantity (the *Unchecked forms are undefined on overflow, the *WithOverflow
+            # forms are followed by a panic on overflow: both are the mathematical result where execution continues)
+            from .poly import UMAX
+            r = {"Add": pa + pb, "Sub": pa - pb, "Mul": pa * pb}[op]
+            pf = self.poly_facts(self._bin_facts)
+            fits_lo = all(v >= 0 for v in r.t.values()) or prove((">=", r), pf)
+            if r.is_const():
+                fits_hi = r.const_value() < (1 << 64)
+            else:
+                fits_hi = op == "Sub" or prove((">=", Poly.atom(UMAX) - r), pf)
+            if not (fits_lo and fits_hi):
+                return ("I", Poly.atom(("wrap", op, pa, pb)))
+            return ("I", r)
         if op in ("Add", "AddUnchecked"):
             return ("I", pa + pb)
         if op in ("Sub", "SubUnchecked"):
@@ -482,7 +497,11 @@ class Analysis:
                 return ("V", "transmute", v, tstr(rv["ty"]))
             return v
         if k == "bin":
-            return self.binop(rv["op"], self.operand(st, rv["a"]), self.operand(st, rv["b"]), site)
+            self._bin_facts = st.facts if (rv["op"] in ("Add", "Sub", "Mul") and is_int_ty(lhs_ty) and not lhs_ty["n"].startswith("i")) else None
+            try:
+                return self.binop(rv["op"], self.operand(st, rv["a"]), self.operand(st, rv["b"]), site)
+            finally:
+                self._bin_facts = None
         if k == "un":
             a = self.operand(st, rv["a"])
             if rv["op"] == "Not":
@@ -715,6 +734,23 @@ class Analysis:
             if p and p[3] is not None and mid is not None and targs:
                 cs.no_effects = True
                 return ("A", "tuple", (("P", p[1], p[2], mid), ("P", p[1], p[2] + mid * te.size(targs[0]), p[3] - mid)))
+        if fn in ("core::slice::<impl [T]>::get", "core::slice::<impl [T]>::get_mut") and len(args) == 2 and args[1][0] == "I" and len(targs) >= 2 \
+                and targs[1].get("k") == "prim" and targs[1]["n"] == "usize":
+            # slice.get(i) / get_mut(i): Some(&slice[i]) exactly when i < len - an Option whose payload is the pointer to element i; the variant
+            # edges carry the bound (variant_implied)
+            p = ptr()
+            if p and p[3] is not None:
+                cs.no_effects = True
+                return ("O", ("P", p[1], p[2] + args[1][1] * te.size(targs[0]), None), ("get", cs.bb, args[1][1], p[3]))
+        if fn in ("core::slice::IterMut::<'a, T>::into_slice", "core::slice::Iter::<'a, T>::as_slice", "core::slice::IterMut::<'a, T>::as_slice") and args \
+                and isinstance(args[0], tuple) and len(args[0]) == 5 and args[0][:3] == ("V", "iter", "slice") \
+                and not any(t_["term"]["k"] == "call" and t_["term"]["f"].get("k") == "fn" and t_["term"]["f"]["def"] in (
+                    "core::iter::Iterator::next", "core::iter::DoubleEndedIterator::next_back", "core::iter::Iterator::nth", "core::iter::Iterator::for_each",
+                    "core::iter::Iterator::by_ref", "core::iter::Iterator::fold") and "core::slice::Iter" in tstr((t_["term"]["f"].get("args") or [{}])[0])
+                    for t_ in self.body["mir"]["blocks"]):
+            # the rest of a slice iterator that has not been advanced (no polling of a slice iterator anywhere in this body): the whole slice
+            cs.no_effects = True
+            return args[0][3]
         if fn in ("core::slice::<impl [T]>::get_unchecked", "core::slice::<impl [T]>::get_unchecked_mut",
                   "core::ops::Index::index", "core::ops::IndexMut::index_mut"):
             p = ptr()
@@ -1081,7 +1117,7 @@ class Analysis:
         for i, s in enumerate(blk["stmts"]):
             site = (bb, i)
             if s["k"] == "assign":
-                val = self.rvalue(st, s["rv"], site)
+                val = self.rvalue(st, s["rv"], site, self.place_ty(s["lhs"]) if (s["rv"].get("k") == "bin" and s["rv"].get("op") in ("Add", "Sub", "Mul")) else None)
                 base, path = self.write_place(st, s["lhs"], val)
                 if record:
                     self.assigns.append({"site": site, "lhs": s["lhs"], "cell": (base, path), "val": val, "rv": s["rv"], "facts": st.facts, "at": s.get("at")})
@@ -1137,13 +1173,14 @@ class Analysis:
                     if known is not None and known != val:
                         continue
                     s2 = st.copy()
-                    s2.facts = s2.facts | {("variant", inner, val)}
+                    s2.facts = s2.facts | {("variant", inner, val)} | self.variant_implied(inner, val)
                     out.append((b, s2))
                 if known is None or known not in seen:
                     s2 = st.copy()
                     if len(seen) == 1:
                         # two-variant enums: otherwise is the other variant
-                        s2.facts = s2.facts | {("variant", inner, 1 - next(iter(seen)))} if next(iter(seen)) in (0, 1) else s2.facts
+                        if next(iter(seen)) in (0, 1):
+                            s2.facts = s2.facts | {("variant", inner, 1 - next(iter(seen)))} | self.variant_implied(inner, 1 - next(iter(seen)))
                     out.append((t["otherwise"], s2))
             elif d[0] == "I":
                 # switch on an integer term: the taken arm knows its value, the otherwise arm knows what it is not
@@ -1230,6 +1267,15 @@ class Analysis:
                 self.unknown.append(("term", site, t.get("s", k)))
         return out
 
+    def variant_implied(self, v, variant):
+        """Facts that hold by the meaning of a modelled Option when it is known to be Some / None: `slice.get(i)` is Some exactly when i < len."""
+        if isinstance(v, tuple) and len(v) == 3 and v[0] == "O" and isinstance(v[2], tuple) and len(v[2]) == 4 and v[2][0] == "get":
+            idx, ln = v[2][2], v[2][3]
+            f = norm_fact((">=", ln - idx - 1)) if variant == 1 else norm_fact((">=", idx - ln))
+            if not f[1].is_const():
+                return frozenset([("poly",) + f])
+        return frozenset()
+
     def place_ty(self, place):
         ty = self.local_ty(place["l"])
         for e in place["p"]:
@@ -1294,8 +1340,10 @@ class Analysis:
                 if single is not None and single in f[2].atoms():
                     q = f[2].subst({single: P})
                     cands.add((f[1], q))
-                    if f[1] == ">=":
-                        cands.add((">=", q + Poly.const(1)))  # strict -> non-strict
+                    if f[1] == ">=" and q.const_value() < 2:
+                        # strict -> non-strict. Only near the origin: `k + phi >= 0` for ever larger k is an ascending chain of ever weaker facts
+                        # (one more per iteration of the enclosing loop) that says nothing and keeps the fixpoint from settling
+                        cands.add((">=", q + Poly.const(1)))
                     if f[1] == "==":
                         cands.add((">=", q))
                         cands.add((">=", -q))
@@ -1307,6 +1355,8 @@ class Analysis:
         for rel, q in cands:
             if q.is_const() or patom not in q.atoms():
                 continue
+            if all(v >= 0 for v in q.t.values()) and (rel == ">=" or (rel == "!=" and q.const_value() > 0)):
+                continue   # holds for every value of the (non-negative) atoms: says nothing, and would be re-derived at every merge for ever
             qa, qb = q.subst({patom: pa}), q.subst({patom: pb})
             if prove((rel, qa), pfa, 200) and prove((rel, qb), pfb, 200):
                 out.add(("poly", rel, q))
@@ -1529,7 +1579,7 @@ class Analysis:
                     acc, _ = self.join(succ, acc, st)
                 # widening: a cell that has once been merged into this block's phi stays merged (keeps the iteration monotone)
                 recomputed[succ] = recomputed.get(succ, 0) + 1
-                if recomputed[succ] > 40:
+                if recomputed[succ] > int(os.environ.get("GAV_WIDEN", "40")):
                     w = widened.setdefault(succ, {})
                     for k, v in list(acc.mem.items()):
                         if self._is_phi_of(v, succ):
@@ -1538,8 +1588,12 @@ class Analysis:
                         if k in acc.mem and acc.mem[k] != v:
                             acc.mem[k] = v
                 prev = self.block_in.get(succ)
-                if prev is not None and len(incoming) > 1 and recomputed[succ] > 40:
+                if prev is not None and len(incoming) > 1 and recomputed[succ] > int(os.environ.get("GAV_WIDEN", "40")):
                     acc.facts = acc.facts & prev.facts  # delayed widening: facts at a merge point only shrink from here on
+                if os.environ.get("GAV_OSC") and prev is not None and recomputed[succ] > 6 and recomputed[succ] < 10 and (prev.mem != acc.mem or prev.facts != acc.facts):
+                    from .dump import fs as _fs, vs as _vs
+                    print("OSC %s bb%d #%d: facts- %s | facts+ %s | mem %s" % (self.body.get("key", "?")[-12:], succ, recomputed[succ], _fs(prev.facts - acc.facts)[:300], _fs(acc.facts - prev.facts)[:300],
+                          [(k, _vs(prev.mem.get(k))[:80], _vs(v)[:80]) for k, v in acc.mem.items() if prev.mem.get(k) != v][:3]))
                 if prev is None or prev.mem != acc.mem or prev.facts != acc.facts:
                     self.block_in[succ] = acc
                     if succ not in work:
@@ -1547,7 +1601,7 @@ class Analysis:
         _SPENT[0] += _time.process_time() - t_start
         if os.environ.get("GAV_TIMELOG"):
             with open(os.environ["GAV_TIMELOG"], "a") as fh_:
-                fh_.write("%.2f %d %s\n" % (_time.process_time() - t_start, iters, self.body.get("key", "?") if isinstance(self.body, dict) else "?"))
+                fh_.write("%.2f %d %d %s\n" % (_time.process_time() - t_start, iters, len(self.blocks), self.body.get("key", "?") if isinstance(self.body, dict) else "?"))
         _poly.DEADLINE[0] = None
         if _poly.EXPIRED[0] != exp0 and not any(u and u[0] == "fixpoint" for u in self.unknown):
             self.unknown.append(("fixpoint", None, "time bound (%ds): proofs inside merges were cut short" % budget))
